@@ -1,6 +1,7 @@
 """C16 - bus, buffer and node-id allocation is safe and complete."""
 
 import ast
+import re
 
 from ..loader import norm, full, walk_local, walk_local_ordered
 from .. import util as U
@@ -192,19 +193,41 @@ def rule_free(ctx):
         g = guard[0]
         first = [norm(s) for s in g.body[:2]]
         ctx.ob('C16.free', f'{f.fq}:mark-free', first == ['block.used = False', 'self._add_to_freed(block)'], 'the block is marked free and listed', g, mod)
-        merges = [s for s in ast.walk(g) if isinstance(s, ast.If) and norm(s.test) == 'tmp is not None']
-        ctx.ob('C16.free', f'{f.fq}:two-merges', len(merges) == 2, 'previous and next neighbours are both considered', g, mod)
-        for i, mg in enumerate(merges):
+        # role-bound: each neighbour step is `N = self._find_*(...)`, `if N is not None and not N.used:`,
+        # `T = N.join(B)`, `if T is not None:` <merge body>; names N/T/B are read from the code
+        blk = 'block'
+        merges = []
+        conds = []
+        nb_of = {}
+        for s in g.body:
+            if isinstance(s, ast.Assign) and len(s.targets) == 1 and isinstance(s.targets[0], ast.Name) and isinstance(s.value, ast.Call) \
+                    and U.is_self_attr(s.value.func) and s.value.func.attr in ('_find_previous', '_find_next'):
+                nb_of[s.targets[0].id] = s.value.func.attr
+            if not isinstance(s, ast.If):
+                continue
+            m = re.fullmatch(r'(\w+) is not None and \(not (\w+)\.used\)', norm(s.test))
+            conds.append((nb_of.get(m.group(1)) if m and m.group(1) == m.group(2) else None))
+            if not (m and m.group(1) == m.group(2)):
+                continue
+            nb = m.group(1)
+            tname = None
+            for t in s.body:
+                if isinstance(t, ast.Assign) and len(t.targets) == 1 and isinstance(t.targets[0], ast.Name) and norm(t.value) == f'{nb}.join({blk})':
+                    tname = t.targets[0].id
+                if tname and isinstance(t, ast.If) and norm(t.test) == f'{tname} is not None':
+                    merges.append((nb_of.get(nb), nb, tname, t))
+        ctx.ob('C16.free', f'{f.fq}:two-merges', [m[0] for m in merges] == ['_find_previous', '_find_next'],
+               'previous and next neighbours are both considered, in that order', g, mod)
+        for i, (which, nb, T, mg) in enumerate(merges):
             src = ' ; '.join(norm(s) for s in mg.body)
-            other = 'prev' if i == 0 else 'next'
-            gone = 'block' if i == 0 else 'next'
-            ok = 'self._array[tmp.start - self.addr_offset] = tmp' in src and f'self._array[{gone}.start - self.addr_offset] = None' in src and \
-                f'self._remove_from_freed({other})' in src and 'self._remove_from_freed(block)' in src and \
-                'if self.top > tmp.start: self._add_to_freed(tmp)' in src
+            other = 'prev' if which == '_find_previous' else 'next'
+            gone = blk if which == '_find_previous' else nb
+            ok = f'self._array[{T}.start - self.addr_offset] = {T}' in src and f'self._array[{gone}.start - self.addr_offset] = None' in src and \
+                f'self._remove_from_freed({nb})' in src and f'self._remove_from_freed({blk})' in src and \
+                f'if self.top > {T}.start: self._add_to_freed({T})' in src
             ctx.ob('C16.free', f'{f.fq}:merge-with-{other}', ok,
                    'a merge installs the joined block, clears the absorbed slot, drops both free-list entries and lists the joined block', mg, mod)
-        conds = [norm(s.test) for s in g.body if isinstance(s, ast.If)]
-        ctx.ob('C16.free', f'{f.fq}:neighbour-must-be-free', conds == ['prev is not None and (not prev.used)', 'next is not None and (not next.used)'],
+        ctx.ob('C16.free', f'{f.fq}:neighbour-must-be-free', conds == ['_find_previous', '_find_next'],
                f'only free neighbours are merged; found {conds}', g, mod)
     # join only adjoining blocks
     cb = ctx.repo.cls('sc3.synth._engine:ContiguousBlock')
@@ -337,3 +360,7 @@ MUTANTS = [
 ]
 
 REPAIRS = []
+
+EQUIV = [
+    dict(name='rename local of free', file='sc3/synth/_engine.py', start='        # // this \'if\' prevents an error if a Buffer object is freed twice', end='    def blocks(self):', rename=[('tmp', 'joined')]),
+]
